@@ -184,6 +184,16 @@ func init() {
 		}
 		return nil, true
 	}
+	// verifIte(c, a, b): if-then-else as a term (no fork)
+	v["verifIte"] = func(m *machine, fr *frame, fn *ssa.Function, a []value) (value, bool) {
+		if c, ok := a[0].(bool); ok {
+			if c {
+				return a[1], true
+			}
+			return a[2], true
+		}
+		return m.fromTerm(m.tf.ite(m.toTerm(a[0], 0), m.toTerm(a[1], 64), m.toTerm(a[2], 64)), true), true
+	}
 	v["verifIsSymbolic"] = func(m *machine, fr *frame, fn *ssa.Function, a []value) (value, bool) {
 		return !isConcrete(a[0]), true
 	}
